@@ -131,6 +131,18 @@ def build(reg, src):
     reg.fn(F + '_write_file', params=dict(file_name=FKey, new_file_contents=Str, use_fsync=Bool), setup=wf_full_setup,
            requires=[not_held, lambda s: len_(s.new_file_contents) <= VInt(A(s.st, s.self)['max'])], returns='opaque', ensures=[not_held])
     from replay import c18 as rp
+
+    # (bounded, labelled) "an update that reports failure has no effect"
+    def failed_update(ctx):
+        from pyvc.run import run_replay
+        r = run_replay(lambda inputs, name: dict(rows=rp.failed_update_rows()), {}, 'failed-update', timeout_s=60)
+        rows_ = r.get('rows') if isinstance(r, dict) else None
+        if not rows_:
+            return [dict(name='failed-update(bounded)::harness', ok=False, undecided=True, backend='native-execution (bounded)', detail=str(r)[:300])]
+        return [dict(name=f"failed-update(bounded)::{g}", ok=bool(ok), backend='native-execution (bounded)', detail=d, confirmed=not ok) for g, ok, d in rows_]
+    failed_update.__name__ = 'failed-update'
+    reg.extra_checks.append(failed_update)
+    reg.bounded.append(dict(check='failed-update', tool='native execution with one injected OSError in the writer', bound='one file, one fault, three follow-up operations', result='see rows'))
     reg.replays.append((r'update_file_futures_and_memory#release\.GL', rp.replay_late_load_accounting))
     reg.replays.append((r'update_file_futures_and_memory#(call|release|assert)', rp.replay_late_load_under_pressure))
     reg.replays.append((r'submit-write\.no-load-of-the-file-in-flight|#release\.GLoad', rp.replay_torn_read))
